@@ -324,23 +324,30 @@ theorem u2f_iff (env : Prog.Env) (o : AttObj) (h : Bytes) (res : Result) :
           next alg crv x y hK =>
             simp only [Prog.run_bind, run_ite, Prog.run_pure] at hr
             split at hr
-            next hsig =>
-              cases hr
-              rw [X509SigLemmas.run_certCheckSig, C12.algX509_spec] at hsig
-              exact ⟨der, c, d, acd, alg, crv, x, y, px, py, (unmarshal_ok_iff _ _ _).1 hc, hk,
-                (attested_iff _ _ _).1 hA, (credKey_iff _ _).1 hK, hsig, rfl⟩
             · cases hr
+            next hfit =>
+              have hfit : u2fCoordinatesFit crv x y = true := by simpa using hfit
+              simp only [u2fCoordinatesFit, Bool.and_eq_true, decide_eq_true_eq] at hfit
+              split at hr
+              next hsig =>
+                cases hr
+                rw [X509SigLemmas.run_certCheckSig, C12.algX509_spec] at hsig
+                exact ⟨der, c, d, acd, alg, crv, x, y, px, py, (unmarshal_ok_iff _ _ _).1 hc, hk,
+                  (attested_iff _ _ _).1 hA, (credKey_iff _ _).1 hK, hfit.1.1, hfit.1.2, hfit.2, hsig, rfl⟩
+              · cases hr
           · simp at hr
       · simp at hr
     · simp at hr
-  · rintro ⟨der, c, d, acd, alg, crv, x, y, px, py, hx, hk, hA, hK, hsig, rfl⟩
+  · rintro ⟨der, c, d, acd, alg, crv, x, y, px, py, hx, hk, hA, hK, hcrv, hfx, hfy, hsig, rfl⟩
     have hx' := (unmarshal_ok_iff _ _ _).2 hx
     have hA' := (attested_iff _ _ _).2 hA
     have hK' := (credKey_iff _ _).2 hK
+    have hfit : u2fCoordinatesFit crv x y = true := by
+      simp only [u2fCoordinatesFit, Bool.and_eq_true, decide_eq_true_eq]; exact ⟨⟨hcrv, hfx⟩, hfy⟩
     have hsig' : Prog.run env (certCheckSig der c alg
         (u2fMessage d.rpIdHash h acd.credentialId x y) (getSignature o.stmt)) = true := by
       rw [X509SigLemmas.run_certCheckSig, C12.algX509_spec]; exact hsig
-    simp [verifyU2F, hx', hk, hA', hK', hsig']
+    simp [verifyU2F, hx', hk, hA', hK', hfit, hsig']
 
 /-! ### android-key -/
 
@@ -694,7 +701,7 @@ theorem packedSelf_type {env o h res} (hok : PackedSelfOK env o h res) :
   obtain ⟨_, hno, d, acd, k, _, _, _, _, rfl⟩ := hok
   exact ⟨rfl, hno⟩
 theorem u2f_type {env o h res} (hok : U2FOK env o h res) : res.type = "Unknown" := by
-  obtain ⟨der, c, d, acd, alg, crv, x, y, px, py, _, _, _, _, _, rfl⟩ := hok; rfl
+  obtain ⟨der, c, d, acd, alg, crv, x, y, px, py, _, _, _, _, _, _, _, _, rfl⟩ := hok; rfl
 theorem tpm_type {env o h res} (hok : TpmOK env o h res) : res.type = "AttCA" := by
   obtain ⟨der, c, rest, hashes, ciRaw, ci, paRaw, pa, d, acd, k, pk, paEnc, nameAlg, nameVal, hashId, ciEnc, _, _,
     _, _, _, _, _, _, _, _, _, _, _, _, _, _, _, _, _, _, _, _, _, _, _, _, rfl⟩ := hok
@@ -747,7 +754,7 @@ theorem trust_path_is_x5c (env : Prog.Env) (o : AttObj) (h : Bytes) (res : Resul
     exact ⟨_, hx5, rfl⟩
   · obtain ⟨_, hno, d, acd, k, _, _, _, _, rfl⟩ := hok
     exact absurd rfl hne
-  · obtain ⟨der, c, d, acd, alg, crv, x, y, px, py, hx5, _, _, _, _, rfl⟩ := hok
+  · obtain ⟨der, c, d, acd, alg, crv, x, y, px, py, hx5, _, _, _, _, _, _, _, rfl⟩ := hok
     exact ⟨_, hx5, rfl⟩
   · obtain ⟨der, c, rest, hashes, ciRaw, ci, paRaw, pa, d, acd, k, pk, paEnc, nameAlg, nameVal, hashId, ciEnc, hx5, _,
       _, _, _, _, _, _, _, _, _, _, _, _, _, _, _, _, _, _, _, _, _, _, _, _, rfl⟩ := hok
